@@ -131,6 +131,9 @@ def patterns(s):
             phase[t] = "wait"
         elif k == "b":
             phase[t] = "after"
+        elif k == "x":
+            out.add("client-breaks-while-switch-completes")
+            phase[t] = "after"
         elif k == "quit":
             if any(p == "dial" for p in phase.values()):
                 out.add("quit-while-dialing")
@@ -151,19 +154,19 @@ def select(pool, budget, rnd, max_hang, max_kick, max_kick_live):
         if any(p["beh"] == "hang" for p in s["prog"].values()) or any(x["k"] == "kick" for x in s["sched"]):
             continue
         for pat in patterns(s):
-            if want.get(pat, 0) < 3 and s not in picked:
+            if want.get(pat, 0) < 2 and s not in picked:
                 picked.append(s)
                 seen |= feats(s)
                 for q in patterns(s):
                     want[q] = want.get(q, 0) + 1
     maxquit = max(6, budget // 5)
 
-    used["quit"] = sum(1 for s in picked if any(x["k"] == "quit" for x in s["sched"]))
+    used["quit"] = sum(1 for s in picked if any(x["k"] in ("quit", "x") for x in s["sched"]))
 
     def cost(s):
         return {"hang": sum(1 for p in s["prog"].values() if p["beh"] == "hang"),
                 "kick": int(any(x["k"] == "kick" for x in s["sched"])),
-                "quit": int(any(x["k"] == "quit" for x in s["sched"])),
+                "quit": int(any(x["k"] in ("quit", "x") for x in s["sched"])),
                 "live": int(kick_during_attempt(s))}
 
     def fits(c):
@@ -317,6 +320,13 @@ def run(ctx):
     scheds = select(pool, ctx.pick(45, 300), rnd, ctx.pick(2, 20), ctx.pick(16, 110), ctx.pick(2, 12))
     for i, s in enumerate(scheds):
         s["ver"] = (763, 765)[(i + ctx.seed) % 2]
+    # a client that breaks while a switch completes matters most for clients without a configuration
+    # phase (the old backend is still attached when JoinGame arrives): both kinds, legacy first
+    nx = 0
+    for s in scheds:
+        if any(x["k"] == "x" for x in s["sched"]):
+            s["ver"] = (763, 765)[nx % 2]
+            nx += 1
     # the player's first connection with the forced order "acknowledgement; backend's JoinGame; handler
     # installed" (1.20.2+ clients only: older ones have no configuration phase)
     for ver in ctx.pick((765, 767), (764, 765, 766, 767, 774)):
@@ -334,6 +344,8 @@ def run(ctx):
         ctx.log("schedules the rig could not set up (no verdict): %s" % st["skipped"][:4])
     if st["runs"] < 0.8 * len(scheds):
         raise vlib.ToolError("only %d of %d schedules could be driven: %s" % (st["runs"], len(scheds), (st.get("skipped") or [])[:4]))
+    if not st.get("runs_with_client_break_held_at_switch_completion"):
+        raise vlib.ToolError("hook_missing: no client break was ever held at gate point sw.switching")
     if not st.get("first_connection_runs_held_at_ack"):
         raise vlib.ToolError("hook_missing: no first-connection run was held at gate point cfg.acked")
     need = ["sw.checked", "sw.reset", "sw.failed"]
@@ -366,6 +378,8 @@ def run(ctx):
         "sequential_schedules": nseq,
         "runs_with_overlapping_calls": st["runs_with_overlapping_calls"],
         "diverged_schedules": st["diverged"],
+        "first_connection_runs_held_at_ack": st.get("first_connection_runs_held_at_ack", 0),
+        "client_breaks_held_at_switch_completion": st.get("runs_with_client_break_held_at_switch_completion", 0),
         "runs_with_a_call_that_never_returned": st["unfinished"],
         "gate_arrivals": st["gate_arrivals"],
         "events": st["events"],
